@@ -26,18 +26,19 @@ def sync_lock(crate_dir, repo):
         shutil.copyfile(src, os.path.join(crate_dir, 'Cargo.lock'))
 
 
-def run_kani(harnesses, profile, repo='/repo', jobs=12, timeout=900, crate='kani'):
+def run_kani(harnesses, profile, repo='/repo', jobs=12, timeout=900, crate='kani', prefix='harness::', target=None):
     """returns dict: harness -> {status, failed_checks, covers, time_s}, plus raw log"""
     crate_dir = os.path.join(ROOT, crate)
     sync_lock(crate_dir, repo)
     cmd = ['cargo', 'kani', '--output-format=terse', '-j', str(jobs), '--exact']
     for h in harnesses:
-        cmd += ['--harness', 'harness::' + h]
-    if any('stub' in h for h in harnesses):
-        pass
+        cmd += ['--harness', prefix + h]
     t0 = time.time()
+    e = env_for(profile)
+    if target:
+        e['CARGO_TARGET_DIR'] = os.path.join(WORK, target + '-' + profile)
     try:
-        p = subprocess.run(cmd, cwd=crate_dir, env=env_for(profile), capture_output=True, text=True, timeout=timeout)
+        p = subprocess.run(cmd, cwd=crate_dir, env=e, capture_output=True, text=True, timeout=timeout)
         log, rc = p.stdout + p.stderr, p.returncode
     except subprocess.TimeoutExpired as e:
         out = e.stdout or ''
@@ -99,12 +100,15 @@ def run_kani(harnesses, profile, repo='/repo', jobs=12, timeout=900, crate='kani
     return short, log, wall, ' '.join(cmd)
 
 
-def playback(harness, profile, repo='/repo', timeout=1800, crate='kani'):
+def playback(harness, profile, repo='/repo', timeout=1800, crate='kani', prefix='harness::', target=None):
     """re-run one failing harness with concrete playback; return list of (check description, [byte vectors])"""
     crate_dir = os.path.join(ROOT, crate)
-    cmd = ['cargo', 'kani', '--output-format=terse', '--exact', '--harness', 'harness::' + harness, '-Z', 'concrete-playback', '--concrete-playback=print']
+    cmd = ['cargo', 'kani', '--output-format=terse', '--exact', '--harness', prefix + harness, '-Z', 'concrete-playback', '--concrete-playback=print']
+    e = env_for(profile)
+    if target:
+        e['CARGO_TARGET_DIR'] = os.path.join(WORK, target + '-' + profile)
     try:
-        p = subprocess.run(cmd, cwd=crate_dir, env=env_for(profile), capture_output=True, text=True, timeout=timeout)
+        p = subprocess.run(cmd, cwd=crate_dir, env=e, capture_output=True, text=True, timeout=timeout)
         log = p.stdout + p.stderr
     except subprocess.TimeoutExpired:
         return [], 'TIMEOUT'
